@@ -9,6 +9,8 @@ import (
 	"dawgsverif/areas/frontarea"
 	"dawgsverif/internal/tr"
 
+	"github.com/specterops/dawgs/cypher/frontend"
+
 	"github.com/specterops/dawgs/drivers/pg/pgutil"
 )
 
@@ -71,17 +73,16 @@ func Hygiene(args []string) {
 	only := fs.String("text", "", "only the model with exactly this text")
 	fs.Parse(args)
 	patterns := tr.ReadLines[Pattern](*in)
-	ms := models(*limit)
-	mapper := mapperFor(ms)
+	var ms []frontarea.Model
 	if *only != "" {
-		var keep []frontarea.Model
-		for _, m := range ms {
-			if m.Text == *only {
-				keep = append(keep, m)
-			}
+		// one query: parse it directly instead of building the whole corpus to pick it out
+		if q, err := frontend.ParseCypher(frontend.NewContext(), *only); err == nil && q != nil {
+			ms = []frontarea.Model{{Text: *only, Tag: "only", Query: q}}
 		}
-		ms = keep
+	} else {
+		ms = models(*limit)
 	}
+	mapper := mapperFor(ms)
 	results := make([][]map[string]any, len(ms))
 	var wg sync.WaitGroup
 	sem := make(chan struct{}, *workers)
